@@ -17,7 +17,9 @@ RULE = ('complete sweep of canonical ordered non-deleting LCFRS rules '
         'fan-out >= 2 somewhere; distinct = distinct (rule, mode)')
 ASSUMPTIONS = ['vt/lcfrs.py evaluate(): symbolic yield evaluation',
                'grammars of the second workload come from the real '
-               'grammar.extract, which C06 monitors separately']
+               'grammar.extract, which C06 monitors separately',
+               'binarization symbols are recognised by their form @...X; original '
+               'categories of that form are excluded from the workloads']
 WATCHDOG = {'quick': 900, 'thorough': 5400}
 MIN = {'quick': {'distinct': 5000,
                  'hooks': {'grammar.binarize_rule': 20000,
@@ -364,6 +366,12 @@ def shard(ctx):
             spec = gen.tree(rng, n, pools, max_arity=rng.choice([3, 5, 8]),
                             p_unary=0.1, moves=rng.choice([0, 1, 2, 4, 6]),
                             sid=j + 1)
+            # categories that carry characters used in the generated labels
+            # (not categories of the form @...X: the oracle tells binarization
+            # symbols from original categories by that form, see ASSUMPTIONS)
+            gen.spice(rng, spec, ['cat-keyword', 'cat-punct-char',
+                                  'cat-apostrophe', 'cat-digit-first',
+                                  'pos-punct-char'])
             live = common.live_tree(ctx, spec, rng)
             ctx.R.grammar.extract._vt_orig(live, g, lex) \
                 if hasattr(ctx.R.grammar.extract, '_vt_orig') \
